@@ -244,13 +244,57 @@ template <typename Make, bool writable = true>
 static Fails run_container(const std::string& kind, Make make, int n, int cat, int adaptor, int style)
 {
     Fails f;
-    std::string what = (adaptor == 0 ? "enumerate(" : "reverse(") + std::string(cat == 0 ? "lvalue " : cat == 1 ? "const " : "temporary ") + kind + " of " +
-                       std::to_string(n) + ") style " + std::to_string(style);
+    std::string what = (adaptor == 0 ? "enumerate(" : adaptor == 1 ? "reverse(" : "enumerate(reverse(") +
+                       std::string(cat == 0 ? "lvalue " : cat == 1 ? "const " : cat == 2 ? "temporary " : cat == 3 ? "temporary, range object moved on, " : "temporary, range object copied, ") + kind + " of " +
+                       std::to_string(n) + (adaptor == 2 ? "))" : ")") + " style " + std::to_string(style);
     {
         auto c = make(n);
         auto want = values(c);
         auto at = addresses(c);
-        if (adaptor == 0)
+        // the range object of a temporary is handed on (moved into a new object / copied) and the original object is
+        // destroyed before the loop: the elements live in whatever object the loop iterates over
+        auto handed_on = [&](auto* r) {
+            using R = std::remove_pointer_t<decltype(r)>;
+            R* r2 = cat == 3 ? new R(std::move(*r)) : new R(static_cast<const R&>(*r));
+            delete r;
+            return std::unique_ptr<R>(r2);
+        };
+        if (adaptor == 2)
+        {
+            // composition: the reversed range is itself a temporary range handed to enumerate
+            auto rwant = want;
+            std::reverse(rwant.begin(), rwant.end());
+            auto rat = at;
+            std::reverse(rat.begin(), rat.end());
+            if (cat == 0)
+                judge_enum(walk_enum(nitro::lang::enumerate(nitro::lang::reverse(c)), style), rwant, &rat, what, f);
+            else if (cat == 1)
+            {
+                const auto& cc = c;
+                judge_enum(walk_enum(nitro::lang::enumerate(nitro::lang::reverse(cc)), style), rwant, &rat, what, f);
+            }
+            else if (cat == 2)
+                judge_enum(walk_enum(nitro::lang::enumerate(nitro::lang::reverse(std::move(c))), style), rwant, nullptr, what, f);
+            else
+            {
+                auto r = handed_on(new auto(nitro::lang::enumerate(nitro::lang::reverse(std::move(c)))));
+                judge_enum(walk_enum(*r, style), rwant, nullptr, what, f);
+            }
+        }
+        else if (cat >= 3)
+        {
+            if (adaptor == 0)
+            {
+                auto r = handed_on(new auto(nitro::lang::enumerate(std::move(c))));
+                judge_enum(walk_enum(*r, style), want, nullptr, what, f);
+            }
+            else
+            {
+                auto r = handed_on(new auto(nitro::lang::reverse(std::move(c))));
+                judge_rev(walk_rev(*r, style), want, nullptr, what, f);
+            }
+        }
+        else if (adaptor == 0)
         {
             if (cat == 0)
             {
@@ -380,7 +424,7 @@ template <size_t N>
 static Fails run_builtin(int cat, int adaptor, int style)
 {
     Fails f;
-    std::string what = (adaptor == 0 ? "enumerate(" : "reverse(") + std::string(cat == 0 ? "" : "const ") + "built-in array of " + std::to_string(N) + ") style " + std::to_string(style);
+    std::string what = (adaptor == 0 ? "enumerate(" : adaptor == 1 ? "reverse(" : "enumerate(reverse(") + std::string(cat == 0 ? "" : "const ") + "built-in array of " + std::to_string(N) + (adaptor == 2 ? "))" : ")") + " style " + std::to_string(style);
     {
         E arr[N];
         std::vector<int> want;
@@ -406,6 +450,20 @@ static Fails run_builtin(int cat, int adaptor, int style)
             {
                 const E(&carr)[N] = arr;
                 judge_enum(walk_enum(nitro::lang::enumerate(carr), style), want, &at, what, f);
+            }
+        }
+        else if (adaptor == 2)
+        {
+            auto rwant = want;
+            std::reverse(rwant.begin(), rwant.end());
+            auto rat = at;
+            std::reverse(rat.begin(), rat.end());
+            if (cat == 0)
+                judge_enum(walk_enum(nitro::lang::enumerate(nitro::lang::reverse(arr)), style), rwant, &rat, what, f);
+            else
+            {
+                const E(&carr)[N] = arr;
+                judge_enum(walk_enum(nitro::lang::enumerate(nitro::lang::reverse(carr)), style), rwant, &rat, what, f);
             }
         }
         else
@@ -443,7 +501,7 @@ static Fails run_builtin(int cat, int adaptor, int style)
 static Fails run_initlist(int n, int adaptor, int style)
 {
     Fails f;
-    std::string what = (adaptor == 0 ? "enumerate(" : "reverse(") + std::string("initializer list of ") + std::to_string(n) + ") style " + std::to_string(style);
+    std::string what = (adaptor == 0 ? "enumerate(" : adaptor == 1 ? "reverse(" : "enumerate(reverse(") + std::string("initializer list of ") + std::to_string(n) + (adaptor == 2 ? "))" : ")") + " style " + std::to_string(style);
     {
         std::vector<int> want;
         for (int i = 0; i < n; i++)
@@ -473,6 +531,29 @@ static Fails run_initlist(int n, int adaptor, int style)
             default:
                 s = walk_enum(nitro::lang::enumerate(IL4), style);
             }
+            judge_enum(s, want, nullptr, what, f);
+        }
+        else if (adaptor == 2)
+        {
+            Seen s;
+            switch (n)
+            {
+            case 0:
+                s = walk_enum(nitro::lang::enumerate(nitro::lang::reverse(IL0)), style);
+                break;
+            case 1:
+                s = walk_enum(nitro::lang::enumerate(nitro::lang::reverse(IL1)), style);
+                break;
+            case 2:
+                s = walk_enum(nitro::lang::enumerate(nitro::lang::reverse(IL2)), style);
+                break;
+            case 3:
+                s = walk_enum(nitro::lang::enumerate(nitro::lang::reverse(IL3)), style);
+                break;
+            default:
+                s = walk_enum(nitro::lang::enumerate(nitro::lang::reverse(IL4)), style);
+            }
+            std::reverse(want.begin(), want.end());
             judge_enum(s, want, nullptr, what, f);
         }
         else
@@ -522,17 +603,17 @@ static std::vector<Case> cases()
     std::vector<Case> cs;
     auto add_kind = [&](const std::string& kind, auto make, int nmin, int nmax) {
         for (int n = nmin; n <= nmax; n++)
-            for (int cat = 0; cat < 3; cat++)
-                for (int adaptor = 0; adaptor < 2; adaptor++)
-                    for (int style = 0; style < (adaptor == 0 ? 4 : 2); style++)
+            for (int cat = 0; cat < 5; cat++)
+                for (int adaptor = 0; adaptor < 3; adaptor++)
+                    for (int style = 0; style < (adaptor != 1 ? 4 : 2); style++)
                         cs.push_back({ kind + "/" + std::to_string(n) + "/" + std::to_string(cat) + "/" + std::to_string(adaptor) + "/" + std::to_string(style),
                                        [=] { return run_container(kind, make, n, cat, adaptor, style); } });
     };
     // std::set: elements are const, so only order, indices, aliasing by address and lifetime are judged
     for (int n = 0; n <= 4; n++)
-        for (int cat = 0; cat < 3; cat++)
-            for (int adaptor = 0; adaptor < 2; adaptor++)
-                for (int style = 0; style < (adaptor == 0 ? 4 : 2); style++)
+        for (int cat = 0; cat < 5; cat++)
+            for (int adaptor = 0; adaptor < 3; adaptor++)
+                for (int style = 0; style < (adaptor != 1 ? 4 : 2); style++)
                     cs.push_back({ "set/" + std::to_string(n) + "/" + std::to_string(cat) + "/" + std::to_string(adaptor) + "/" + std::to_string(style),
                                    [=] { return run_container<decltype(&mk_set), false>("set", mk_set, n, cat, adaptor, style); } });
     add_kind("vector", mk_vector, 0, 4);
@@ -547,8 +628,8 @@ static std::vector<Case> cases()
     add_kind("array<3>", mk_array<3>, 3, 3);
     add_kind("array<4>", mk_array<4>, 4, 4);
     for (int cat = 0; cat < 2; cat++)
-        for (int adaptor = 0; adaptor < 2; adaptor++)
-            for (int style = 0; style < (adaptor == 0 ? 4 : 2); style++)
+        for (int adaptor = 0; adaptor < 3; adaptor++)
+            for (int style = 0; style < (adaptor != 1 ? 4 : 2); style++)
             {
                 std::string sfx = "/" + std::to_string(cat) + "/" + std::to_string(adaptor) + "/" + std::to_string(style);
                 cs.push_back({ "builtin<1>" + sfx, [=] { return run_builtin<1>(cat, adaptor, style); } });
@@ -557,8 +638,8 @@ static std::vector<Case> cases()
                 cs.push_back({ "builtin<4>" + sfx, [=] { return run_builtin<4>(cat, adaptor, style); } });
             }
     for (int n = 0; n <= 4; n++)
-        for (int adaptor = 0; adaptor < 2; adaptor++)
-            for (int style = 0; style < (adaptor == 0 ? 4 : 2); style++)
+        for (int adaptor = 0; adaptor < 3; adaptor++)
+            for (int style = 0; style < (adaptor != 1 ? 4 : 2); style++)
                 cs.push_back({ "initlist/" + std::to_string(n) + "/" + std::to_string(adaptor) + "/" + std::to_string(style), [=] { return run_initlist(n, adaptor, style); } });
     return cs;
 }
@@ -607,13 +688,13 @@ int main(int argc, char** argv)
                              rep.violation(clause, "C20:" + clause + ":" + c.name.substr(0, c.name.find('/')), mc::J().s("case", c.name).str(), x, idx);
                          }
                          if (idx % 97 == 0)
-                             rep.sample(mc::J().s("case", c.name).s("meaning", "kind/length/category(0 lvalue,1 const,2 temporary)/adaptor(0 enumerate,1 reverse)/iteration style").str());
+                             rep.sample(mc::J().s("case", c.name).s("meaning", "kind/length/category(0 lvalue,1 const,2 temporary,3 temporary whose range object is moved on,4 ... copied)/adaptor(0 enumerate,1 reverse,2 enumerate(reverse))/iteration style").str());
                      });
         }
     };
     auto rep = sh.run();
     rep.counters["cases_total"] = cs.size();
-    rep.notes["rule"] = "container kind x length 0..4 x value category x adaptor x iteration style (range-for, ++it, it++, *it++); every case "
+    rep.notes["rule"] = "container kind x length 0..4 x value category (lvalue, const, temporary, temporary with the range object moved on / copied and the original destroyed) x adaptor (enumerate, reverse, enumerate(reverse)) x iteration style (range-for, ++it, it++, *it++); every case "
                         "is distinct; states = (kind, length, category, adaptor), transitions = cases executed";
     mc::write_out(a, rep);
     return 0;
